@@ -239,7 +239,15 @@ def calls_for(pre: Circuit, tier: str, rng: random.Random) -> Iterator[Call]:
 
     # ---- replace / batch_replace / replace_gate ---------------------------
     for ci, old in ops_here:
-        for new in new_ops:
+        # same gate on every permutation of the old location (same qudit
+        # set, possibly the same first qudit), plus the fresh operations
+        perms = [
+            Operation(old.gate, loc, old.params)
+            for loc in itertools.permutations(old.location)
+            if tuple(loc) != tuple(old.location)
+            and tuple(pre.radixes[q] for q in loc) == tuple(old.radixes)
+        ]
+        for new in new_ops + perms:
             for pq in old.location:
                 ok = pq in new.location
 
@@ -467,6 +475,14 @@ def calls_for(pre: Circuit, tier: str, rng: random.Random) -> Iterator[Call]:
     for reg in regions:
         yield Call('fold', reg, lambda c, reg=reg: c.fold(dict(reg)),
                    _exp_fold(reg), False, True)
+        def fold_unfold(c: Circuit, reg: tuple = reg) -> Any:
+            p = c.fold(dict(reg))
+            c.unfold(p)
+            return p
+        yield Call('fold+unfold', reg, fold_unfold,
+                   lambda pre_, post, res: eq_tl(
+                       post, C.timelines(pre_), 'unfold(fold(region))'),
+                   False, True)
         yield Call('straighten', reg,
                    lambda c, reg=reg: c.straighten(dict(reg)),
                    None, False, True)
@@ -556,11 +572,6 @@ def _exp_fold(reg: tuple) -> Callable[[Circuit, Circuit, Any], list[str]]:
             if cell is None or not isinstance(cell.gate, CircuitGate):
                 errs.append('fold returned %s which does not hold the new '
                             'CircuitGate' % (p,))
-            else:
-                qs = sorted(q for q, _ in reg)
-                if sorted(cell.location) != qs:
-                    errs.append('fold: block spans %s, region spans %s' % (
-                        sorted(cell.location), qs))
         except Exception as e:     # noqa: BLE001
             errs.append('fold result unusable: %r' % (e,))
         return errs
@@ -633,8 +644,35 @@ def check_circuit(
                             [_names(s) for s in C.flat_timelines(tgt)],
                             [_names(s) for s in pre_flat],
                         ))
+        if prop == 'C04' and not errs:
+            errs += follow_up(c)
         if errs and len(st['failures']) < 6:
             st['failures'].append(_fail(call, desc, pre, 'ensures', errs[0]))
+
+
+def follow_up(c: Circuit) -> list[str]:
+    """Second step of a history: after the call, append a one-qudit
+    operation on every qudit; the reference model (timelines of the grid
+    after the call, plus the new operations at the end) must still agree.
+    Exposes stale front/rear bookkeeping that the first call left behind."""
+    try:
+        want = C.timelines(c)
+        for q in range(c.num_qudits):
+            if c.radixes[q] != 2:
+                continue
+            op = Operation(HGate(), (q,))
+            c.append(op)
+            want[q].append(C.opkey(op))
+        got = C.timelines(c)
+        if got != want:
+            for q, (g, w) in enumerate(zip(got, want)):
+                if g != w:
+                    return ['a later append on qudit %d gives timeline %s, '
+                            'reference model holds %s' % (
+                                q, _names(g), _names(w))]
+    except Exception as e:     # noqa: BLE001
+        return ['a later append failed with %s: %s' % (type(e).__name__, e)]
+    return []
 
 
 def _fail(call: Call, desc: Any, pre: Circuit, kind: str, obs: str) -> dict:
@@ -740,3 +778,46 @@ def run_c05(repo: str, tier: str, seed: int, jobs: int) -> dict:
 
 def run_c04(repo: str, tier: str, seed: int, jobs: int) -> dict:
     return run(repo, tier, seed, jobs, 'C04')
+
+
+def replay(repo: str, rep: dict) -> dict | None:
+    """Re-run one recorded failing call on the real Circuit."""
+    import ast as _ast
+    fi = rep.get('failing_input') or {}
+    fn = fi.get('function', '')
+    if not fn.startswith('Circuit.'):
+        return None
+    method = fn.split('.', 1)[1]
+    radixes, combo = _ast.literal_eval(fi['scenario'])
+    out = None
+    for rich in (False, True):
+        cfgs = C.cycle_configs(C.Alphabet(tuple(radixes), rich))
+        if any(i >= len(cfgs) for i in combo):
+            continue
+        pre = C.build(tuple(radixes), [cfgs[i] for i in combo])
+        for prop in ('C05', 'C04'):
+            stats: dict = {}
+            rng = random.Random(0)
+            for call in calls_for(pre, 'thorough', rng):
+                if call.method != method or \
+                        repr(call.args_desc)[:300] != fi['args']:
+                    continue
+                one: dict = {}
+
+                def only(pre_: Circuit, tier: str, rng_: Any,
+                         call: Call = call) -> Iterator[Call]:
+                    yield call
+                saved = globals()['calls_for']
+                globals()['calls_for'] = only
+                try:
+                    check_circuit(fi['scenario'], pre, prop, 'thorough', rng, one)
+                finally:
+                    globals()['calls_for'] = saved
+                fails = [f for st in one.values() for f in st['failures']]
+                if fails:
+                    return {'reproduced': True, 'circuit': C.describe(pre),
+                            'method': method, 'args': fi['args'],
+                            'failures': fails[:3]}
+                out = {'reproduced': False, 'circuit': C.describe(pre),
+                       'method': method, 'args': fi['args']}
+    return out
